@@ -17,6 +17,9 @@ type GenSpec struct {
 	Files    [][2]string // key, content
 	Disable  bool        // disableNameSuffixHash
 	Tracer   string
+	// labels the generated object must carry when it is created here: the layer's generatorOptions.labels
+	// overlaid by the generator's own options.labels
+	WantLabels map[string]string
 }
 
 // addGenerators decorates the tree with generator entries; returns the specs.
@@ -32,6 +35,14 @@ func addGenerators(r *rand.Rand, t *Tree) []GenSpec {
 		n := r.Intn(3)
 		// generatorOptions of a kustomization apply to ITS generators only (they do not reach into bases)
 		layerDisable := r.Intn(6) == 0
+		// global labels / annotations beside generators whose own options have neither, one, or both maps
+		var gLabels, gAnnos map[string]string
+		if r.Intn(4) == 0 {
+			gLabels = map[string]string{"gopt": fmt.Sprintf("l%d", li)}
+		}
+		if r.Intn(8) == 0 {
+			gAnnos = map[string]string{"gopt-a": "y"}
+		}
 		for i := 0; i < n; i++ {
 			kind := pickS(r, []string{"ConfigMap", "ConfigMap", "Secret"})
 			name := pickS(r, names)
@@ -93,6 +104,17 @@ func addGenerators(r *rand.Rand, t *Tree) []GenSpec {
 			if layerDisable {
 				g.Disable = true
 			}
+			g.WantLabels = map[string]string{}
+			for k, v := range gLabels {
+				g.WantLabels[k] = v
+			}
+			if r.Intn(3) == 0 {
+				own := map[string]string{pickS(r, []string{"gopt", "own"}): "local"}
+				opt["labels"] = toObj(own)
+				for k, v := range own {
+					g.WantLabels[k] = v
+				}
+			}
 			e["options"] = opt
 			if kind == "ConfigMap" {
 				cms = append(cms, e)
@@ -119,8 +141,18 @@ func addGenerators(r *rand.Rand, t *Tree) []GenSpec {
 			}
 			_ = fmt.Sprint
 		}
+		gopt := Obj{}
 		if layerDisable {
-			L.Kust["generatorOptions"] = Obj{"disableNameSuffixHash": true}
+			gopt["disableNameSuffixHash"] = true
+		}
+		if gLabels != nil {
+			gopt["labels"] = toObj(gLabels)
+		}
+		if gAnnos != nil {
+			gopt["annotations"] = toObj(gAnnos)
+		}
+		if len(gopt) > 0 && n > 0 {
+			L.Kust["generatorOptions"] = gopt
 		}
 		if len(cms) > 0 {
 			L.Kust["configMapGenerator"] = cms
